@@ -37,12 +37,13 @@ type WFill struct {
 
 // WFile is one whisper file of a world.
 type WFile struct {
-	Base   string  `json:"base"` // "src" or "dst"
-	Rel    string  `json:"rel"`  // path relative to the base
-	Layout Layout  `json:"layout"`
-	Fills  []WFill `json:"fills,omitempty"`
-	Absent bool    `json:"absent,omitempty"`
-	Link   bool    `json:"link,omitempty"` // the path is a symbolic link to the real file (kept outside the bases)
+	Base    string  `json:"base"` // "src" or "dst"
+	Rel     string  `json:"rel"`  // path relative to the base
+	Layout  Layout  `json:"layout"`
+	Fills   []WFill `json:"fills,omitempty"`
+	Absent  bool    `json:"absent,omitempty"`
+	Link    bool    `json:"link,omitempty"`     // the path is a symbolic link to the real file (kept outside the bases)
+	LinkDir bool    `json:"link_dir,omitempty"` // the directory holding the file is a symbolic link to a real directory outside the bases
 }
 
 func (w WFile) path(e *Env) string { return filepath.Join(e.Dir, w.Base, w.Rel) }
@@ -53,6 +54,23 @@ func buildFile(e *Env, w WFile) error {
 		return nil
 	}
 	p := w.path(e)
+	if w.LinkDir {
+		dir := filepath.Dir(p)
+		realDir := filepath.Join(e.Dir, "real", w.Base, filepath.Dir(w.Rel))
+		if err := os.MkdirAll(realDir, 0o755); err != nil {
+			return err
+		}
+		if err := os.MkdirAll(filepath.Dir(dir), 0o755); err != nil {
+			return err
+		}
+		if fi, err := os.Lstat(dir); err != nil {
+			if err := os.Symlink(realDir, dir); err != nil {
+				return err
+			}
+		} else if fi.Mode()&os.ModeSymlink == 0 {
+			return fmt.Errorf("directory exists and is not a link")
+		}
+	}
 	if err := os.MkdirAll(filepath.Dir(p), 0o755); err != nil {
 		return err
 	}
@@ -427,7 +445,7 @@ func (l Layout) wtListFilled() wt.ArchiveInfoList {
 // cliRunner executes commands as actors of one scheduler.
 type cliRunner struct {
 	first       *cmdResult // result of the first command this runner executed
-	expectAbort bool // the run injects a process death: an aborted command is expected
+	expectAbort bool       // the run injects a process death: an aborted command is expected
 	e           *Env
 	s           *Sched
 	srv         *simServer
